@@ -407,8 +407,25 @@ func (z *zkDCS) ReleaseLock(path string) {
 		z.logger.Error().Msgf("failed to release lock %s: process is not an owner", fullPath)
 		return
 	}
-	err = z.retryDelete(fullPath, stat.Version)
-	if err != nil {
+	z.retryRequest(func() error {
+		// this may be a retry of a delete which was applied while its reply was lost: by now the node
+		// may be a lock acquired by somebody else (its version starts from 0 again), check the owner anew
+		var st *zk.Stat
+		_, st, err = z.conn.Get(fullPath)
+		if errors.Is(err, zk.ErrNoNode) {
+			err = nil
+			return nil
+		}
+		if err != nil {
+			return err
+		}
+		if st.EphemeralOwner != z.conn.SessionID() {
+			return nil
+		}
+		err = z.conn.Delete(fullPath, st.Version)
+		return err
+	})
+	if err != nil && !errors.Is(err, zk.ErrNoNode) {
 		z.logger.Error().Err(err).Msgf("failed to delete lock node %s", fullPath)
 	}
 }
